@@ -69,6 +69,12 @@ class FaultFS:
 
     def copyfile(self, src, dst, *a, **k):
         """shutil.copyfile through the instrumented open(): the copy becomes a truncation plus chunked writes."""
+        follow = k.get("follow_symlinks", a[0] if a else True)
+        if not follow and _os.path.islink(src):
+            # what shutil does then: the destination becomes a second link, no data is copied
+            if self._op("symlink", dst):
+                _os.symlink(_os.readlink(src), dst)  # FileExistsError if dst exists, as with shutil
+            return dst
         with builtins.open(src, "rb") as fsrc:
             data = fsrc.read()
         f = self.open(dst, "wb")
